@@ -855,6 +855,66 @@ def derivative_kinds_part(ctx: Ctx, drv):
                           f"{float(np.max(np.abs(impl[2] - want))):.3e} from p'(x) + c3 dx^2", case)
 
 
+def refill_part(ctx: Ctx):
+    """call -> refill y (and x) in place -> call again with the same array objects: the second answer is that of the new data
+    (compared with a call on fresh copies), for interpolate and interpolate_with_derivative, every interpolator"""
+    from midgard.math import interpolation as ip
+
+    rng = ctx.rng
+    for ci in range(ctx.budget(12, 240)):
+        for kind in KINDS:
+            with guard(ctx, "refill"):
+                n = rng.randint(6, 14) if kind != "barycentric_interpolator" else rng.randint(5, 8)
+                x = rng.uniform(-50, 50) + 10 ** rng.uniform(-1, 1) * np.cumsum([rng.uniform(0.8, 1.2) for _ in range(n)])
+                tail = rng.choice([(), (), (2,)])
+                y1 = np.array([rng.uniform(-1, 1) for _ in range(n * (2 if tail else 1))]).reshape((n,) + tuple(tail)) * 10 ** rng.uniform(0, 3)
+                y2 = np.array([rng.uniform(-1, 1) for _ in range(y1.size)]).reshape(y1.shape) * 10 ** rng.uniform(0, 3)
+                move_x = rng.random() < 0.4
+                x2 = x + (x[1] - x[0]) * rng.uniform(0.1, 0.4) * (np.arange(n) % 2) if move_x else x.copy()
+                dx = float(np.min(np.diff(x2))) * 0.25
+                xn = np.array([rng.uniform(max(x[0], x2[0]) + dx, min(x[-1], x2[-1]) - dx) for _ in range(rng.randint(1, 4))])
+                kw = {"window": rng.randint(3, 5)} if kind == "lagrange" else {}
+                which = rng.choice(["interpolate", "interpolate_with_derivative"])
+                case = {"part": "refill", "kind": kind, "which": which, "w": kw.get("window", 0), "tail": list(tail), "x": [fl(v) for v in x],
+                        "x2": [fl(v) for v in x2], "y": [fl(v) for v in y1.ravel()], "y2": [fl(v) for v in y2.ravel()], "xn": [fl(v) for v in xn], "dx": fl(dx)}
+                ctx.case(case)
+                ctx.count(f"refill:{kind}:{which}" + (":x-too" if move_x else ""))
+                check_refill(ctx, case)
+
+
+def check_refill(ctx: Ctx, case):
+    from midgard.math import interpolation as ip
+
+    kind, tail = case["kind"], tuple(case["tail"])
+    x = np.array([_hx(v) for v in case["x"]]); x2 = np.array([_hx(v) for v in case["x2"]])
+    n = len(x)
+    y1 = np.array([_hx(v) for v in case["y"]]).reshape((n,) + tail); y2 = np.array([_hx(v) for v in case["y2"]]).reshape((n,) + tail)
+    xn, dx = np.array([_hx(v) for v in case["xn"]]), _hx(case["dx"])
+    kw = {"window": case["w"]} if kind == "lagrange" else {}
+
+    def call(xx, yy):
+        with warnings.catch_warnings():
+            warnings.simplefilter("ignore")
+            if case["which"] == "interpolate":
+                return [np.asarray(ip.interpolate(xx, yy, xn, kind=kind, **kw), dtype=float)]
+            return [np.asarray(u, dtype=float) for u in ip.interpolate_with_derivative(xx, yy, xn, kind=kind, dx=dx, **kw)]
+    try:
+        xa, ya = x.copy(), y1.copy()
+        call(xa, ya)
+        ya[...] = y2            # refill in place: the same array objects are handed in again
+        xa[...] = x2
+        second = call(xa, ya)
+        fresh = call(x2.copy(), y2.copy())
+    except Exception as e:  # noqa
+        V(ctx, f"refill:{kind}:raises:{type(e).__name__}", f"{case['which']}({kind}) raised {type(e).__name__}: {str(e)[:100]}", case)
+        return
+    scale = float(np.max(np.abs(y2))) + 1e-300
+    tol = 1e-9 * scale * (1 if kind != "barycentric_interpolator" else 1e3)     # barycentric permutes its nodes randomly
+    if any(a.shape != b.shape or not np.all(np.abs(a - b) <= tol / (1 if i == 0 else dx)) for i, (a, b) in enumerate(zip(second, fresh))):
+        V(ctx, f"refill:{kind}", f"{case['which']}(kind={kind!r}) called again with the same x / y array objects after they were refilled in place "
+          f"returns {second[0].ravel()[:3].tolist()}; fresh copies of the new data give {fresh[0].ravel()[:3].tolist()}", case)
+
+
 def derivative_part(ctx: Ctx):
     """interpolate_with_derivative: same values as interpolate, derivative = central difference of the interpolant
     over x_new +- dx (the documented definition), hence exact slope for data on a line; every interpolator"""
@@ -1282,6 +1342,27 @@ def dops_part(ctx: Ctx, drv, info):
 # plate motion
 
 
+def check_plate_array(ctx: Ctx, case):
+    from midgard.math.plate_motion import PlateMotion
+
+    pm = PlateMotion(plate=case["plate"], model=case["model"])
+    P = np.array([[_hx(u) for u in r_] for r_ in case["pos"]])
+    try:
+        va = np.asarray(pm.get_velocity(P.copy()), dtype=float)
+        vs = np.array([np.asarray(pm.get_velocity(r_.copy()), dtype=float) for r_ in P])
+    except Exception as e:  # noqa
+        V(ctx, f"plate:array:raises:{type(e).__name__}", f"get_velocity on an array of {len(P)} positions raised {e}", case)
+        return
+    scale = float(np.max(np.abs(vs))) + 1e-300
+    if va.shape != P.shape or not np.all(np.abs(va - vs) <= 1e-12 * scale):
+        V(ctx, "plate:array-vs-single", f"get_velocity on an array of {len(P)} positions (one per row) returns shape {va.shape}; row 0 = "
+          f"{va.reshape(-1)[:3].tolist()}, the position alone gives {vs[0].tolist()}", case)
+        return
+    dots = np.abs(np.sum(va * P, axis=1))
+    if not np.all(dots <= 1e-12 * np.linalg.norm(va, axis=1) * np.linalg.norm(P, axis=1) + 1e-300):
+        V(ctx, "plate:array:v.r=0", f"a velocity of an array of {len(P)} positions is not perpendicular to its position (v.r = {dots.tolist()})", case)
+
+
 def plate_part(ctx: Ctx, drv, info):
     from midgard.collections import plate_motion_models as pmm
     from midgard.math.plate_motion import PlateMotion
@@ -1341,6 +1422,14 @@ def plate_part(ctx: Ctx, drv, info):
                         V(ctx, "plate:orientation", "v points against w x r (left-handed rotation about the pole)", case)
                     if abs(float(np.dot(v, pole))) > 1e-12 * nv * nw + 1e-300:
                         V(ctx, "plate:v.w=0", f"v.w = {float(np.dot(v, pole))!r} for |v||w| = {nv * nw!r}", case)
+            # arrays of 1..7 positions (one per row): every row is the velocity of that position alone, perpendicular to it
+            with guard(ctx, "plate"):
+                npos = rng.choice([1, 2, 3, 3, 3, 4, 5, 7])
+                P = np.array([[rng.uniform(-7e6, 7e6) for _ in range(3)] for _ in range(npos)])
+                case = {"part": "plate-array", "model": mname, "plate": plate, "n": npos, "pos": [[fl(u) for u in r_] for r_ in P]}
+                ctx.case(case)
+                ctx.count(f"plate:array-of-{npos}-positions")
+                check_plate_array(ctx, case)
             # spherical <-> cartesian forms of the pole agree with each other (arctan2/cos: measured only)
             try:
                 sph = pm.as_spherical()
@@ -1633,6 +1722,7 @@ def run(ctx: Ctx):
     derivative_part(ctx)
     derivative_model_part(ctx, drv)
     derivative_kinds_part(ctx, drv)
+    refill_part(ctx)
     import sys
     T.types_part(ctx, sys.modules[__name__], info)
     nputil_part(ctx, drv)
@@ -1685,6 +1775,16 @@ def replay(payload):
         if part in T.CHECKS:
             import sys
             bad = T.replay_case(ctx, sys.modules[__name__], c)
+        elif part == "refill":
+            check_refill(ctx, c)
+            bad = bool(ctx.violations)
+            for v in ctx.violations:
+                print("  oracle:", v.key, "|", v.what)
+        elif part == "plate-array":
+            check_plate_array(ctx, c)
+            bad = bool(ctx.violations)
+            for v in ctx.violations:
+                print("  oracle:", v.key, "|", v.what)
         elif part in ("spatial", "sun"):
             import sys
             bad = S.replay_case(ctx, sys.modules[__name__], c)
